@@ -210,6 +210,12 @@ pub struct Scn {
     /// the shared service is polled ready once (and not called) before the callers clone it
     #[serde(default)]
     pub primed_template: bool,
+    /// the other way of writing a configuration that must not trigger: "no limit" given as
+    /// Duration::MAX (bulkhead wait, rate-limiter timeout, breaker open wait, time-limiter
+    /// timeout), error transformation + declining predicate (fallback), default reconnect
+    /// predicate
+    #[serde(default)]
+    pub alt: bool,
     /// per request: (start_ms, outcome script for the inner calls of that request)
     pub reqs: Vec<(u64, Vec<Behaviour>)>,
     pub knobs: SchedKnobs,
@@ -262,7 +268,8 @@ pub fn gen(rng: &mut Rng) -> Scn {
     let zero_backoff = triggering && rng.chance(1, 3);
     let clone_warmup_ms = if mode == 0 && rng.chance(1, 5) { *rng.pick(&[1u64, 5, 20]) } else { 0 };
     let primed_template = mode == 0 && rng.chance(1, 4);
-    Scn { stack, mode, triggering, ready_script, pressure, zero_backoff, clone_warmup_ms, primed_template, reqs, knobs }
+    let alt = rng.chance(1, 3);
+    Scn { stack, mode, triggering, ready_script, pressure, zero_backoff, clone_warmup_ms, primed_template, alt, reqs, knobs }
 }
 
 pub fn valid(s: &Scn) -> bool {
@@ -298,7 +305,8 @@ fn lst(layer: i64, ev: i64, panic_first: bool, second: bool) {
 
 /// Wraps `inner` with one real layer in its (non-)triggering configuration and maps the layer's
 /// error type into `UErr`.
-fn wrap(kind: L, pos: i64, trig: bool, pressure: bool, zero_backoff: bool, listeners: u8, inner: Bx) -> Bx {
+#[allow(clippy::too_many_arguments)]
+fn wrap(kind: L, pos: i64, trig: bool, pressure: bool, zero_backoff: bool, alt: bool, listeners: u8, inner: Bx) -> Bx {
     let backoff = Duration::from_millis(if zero_backoff { 0 } else { 1 });
     let pf = listeners == 2;
     let want_l = listeners > 0;
@@ -306,6 +314,9 @@ fn wrap(kind: L, pos: i64, trig: bool, pressure: bool, zero_backoff: bool, liste
         L::Bulkhead => {
             use tower_resilience_bulkhead::{BulkheadError, BulkheadLayer, BulkheadServiceError};
             let mut b = BulkheadLayer::builder().max_concurrent_calls(if pressure { 1 } else { 64 });
+            if alt {
+                b = b.max_wait_duration(Duration::MAX);
+            }
             if want_l {
                 b = b
                     .on_call_permitted(move |_| lst(pos, 1, pf, false))
@@ -326,7 +337,7 @@ fn wrap(kind: L, pos: i64, trig: bool, pressure: bool, zero_backoff: bool, liste
             let mut b = if pressure {
                 RateLimiterLayer::builder().limit_for_period(1).refresh_period(Duration::from_millis(5)).timeout_duration(Duration::from_secs(10))
             } else {
-                RateLimiterLayer::builder().limit_for_period(10_000).refresh_period(Duration::from_secs(1)).timeout_duration(Duration::from_millis(0))
+                RateLimiterLayer::builder().limit_for_period(10_000).refresh_period(Duration::from_secs(1)).timeout_duration(if alt { Duration::MAX } else { Duration::from_millis(0) })
             };
             if want_l {
                 b = b.on_permit_acquired(move |_| lst(pos, 1, pf, false)).on_permit_acquired(move |_| lst(pos, 1, pf, true));
@@ -339,6 +350,9 @@ fn wrap(kind: L, pos: i64, trig: bool, pressure: bool, zero_backoff: bool, liste
         L::CircuitBreaker | L::CircuitBreakerFallback => {
             use tower_resilience_circuitbreaker::{CircuitBreakerError, CircuitBreakerLayer};
             let mut b = CircuitBreakerLayer::builder().sliding_window_size(1000).minimum_number_of_calls(1000).failure_rate_threshold(1.0);
+            if alt {
+                b = b.wait_duration_in_open(Duration::MAX);
+            }
             if want_l {
                 b = b
                     .on_call_permitted(move |_| lst(pos, 1, pf, false))
@@ -380,7 +394,7 @@ fn wrap(kind: L, pos: i64, trig: bool, pressure: bool, zero_backoff: bool, liste
         }
         L::TimeLimiter | L::TimeLimiterNoCancel => {
             use tower_resilience_timelimiter::{TimeLimiterError, TimeLimiterLayer};
-            let mut b = TimeLimiterLayer::builder().timeout_duration(Duration::from_secs(10)).cancel_running_future(kind == L::TimeLimiter);
+            let mut b = TimeLimiterLayer::builder().timeout_duration(if alt { Duration::MAX } else { Duration::from_secs(10) }).cancel_running_future(kind == L::TimeLimiter);
             if want_l {
                 b = b
                     .on_success(move |_| lst(pos, 1, pf, false))
@@ -405,7 +419,11 @@ fn wrap(kind: L, pos: i64, trig: bool, pressure: bool, zero_backoff: bool, liste
         }
         L::Fallback => {
             use tower_resilience_fallback::{FallbackError, FallbackLayer};
-            let mut b = FallbackLayer::<Req, Resp, UErr>::builder().value(Resp { req: 0, serial: 6_000_000, svc: 9 }).handle(|_: &UErr| false);
+            let mut b = if alt {
+                FallbackLayer::<Req, Resp, UErr>::builder().exception(|e: UErr| e.wrap("fallback.transformed")).handle(|_: &UErr| false)
+            } else {
+                FallbackLayer::<Req, Resp, UErr>::builder().value(Resp { req: 0, serial: 6_000_000, svc: 9 }).handle(|_: &UErr| false)
+            };
             if want_l {
                 b = b.on_event(move |_| lst(pos, 1, pf, false)).on_event(move |_| lst(pos, 1, pf, true));
             }
@@ -429,7 +447,14 @@ fn wrap(kind: L, pos: i64, trig: bool, pressure: bool, zero_backoff: bool, liste
         L::Reconnect => {
             use tower_resilience_reconnect::{ReconnectConfig, ReconnectLayer, ReconnectPolicy};
             let mut b = ReconnectConfig::builder().policy(ReconnectPolicy::fixed(backoff)).max_attempts(3);
-            b = if trig { b.reconnect_predicate(|e: &dyn std::error::Error| e.to_string().contains("kind0")) } else { b.reconnect_predicate(|_: &dyn std::error::Error| false) };
+            b = if trig && alt {
+                // default predicate: every error counts as a connection failure
+                b
+            } else if trig {
+                b.reconnect_predicate(|e: &dyn std::error::Error| e.to_string().contains("kind0"))
+            } else {
+                b.reconnect_predicate(|_: &dyn std::error::Error| false)
+            };
             // the predicate sees the error through Display: give UErr a recognisable rendering
             let svc = ReconnectLayer::new(b.build()).layer(inner.map_err(|u: UErr| RErr(u)));
             BoxCloneService::new(svc.map_err(|e| {
@@ -540,7 +565,7 @@ fn run_once(s: &Scn, chooser: &mut Chooser, rt_seed: u64, listeners: u8) -> SimO
             if k > 0 {
                 svc = BoxCloneService::new(Probe { inner: svc, pos, ready: false });
             }
-            svc = wrap(*kind, pos, scn.triggering, scn.pressure, scn.zero_backoff, listeners, svc);
+            svc = wrap(*kind, pos, scn.triggering, scn.pressure, scn.zero_backoff, scn.alt, listeners, svc);
         }
         let mut defs = vec![];
         // callers clone the shared service when they start; optionally a primer task has polled
@@ -650,9 +675,10 @@ pub fn run(s: &Scn, ctx: &mut RunCtx) -> RunOutput {
     // tower's own services panic when the contract is broken
     for (i, t) in main.rep.tasks.iter().enumerate().skip(off).map(|(k, t)| (k - off, t)) {
         if t.status == Status::Panicked {
+            let contract = t.panic_msg.as_deref().map(|m| m.contains("poll_ready") || m.contains("poll_reserve") || m.contains("not ready")).unwrap_or(false);
             push(
-                "C20.ready_before_call",
-                innermost.name(),
+                if contract { "C20.ready_before_call" } else { "C20.exactly_once" },
+                if contract { innermost.name() } else { "panic" },
                 format!("request {} panicked below layer {} ({}): {:?}", i, innermost.name(), if s.mode == 1 { "tower Buffer" } else if s.mode == 2 { "tower ConcurrencyLimit" } else { "strict inner" }, t.panic_msg),
             );
         }
@@ -739,6 +765,25 @@ pub fn run(s: &Scn, ctx: &mut RunCtx) -> RunOutput {
     }
     if ready_err_scripted {
         world::probe("ready_error_scripted");
+    }
+    // a readiness error met while a request is being handled (e.g. before a retry) must reach
+    // that request's caller as what it is. Hedge is left out: a hedge whose clone fails to get
+    // ready is one failed attempt among several.
+    if s.mode == 0 && !s.stack.contains(&L::Hedge) {
+        for r in main.log.iter() {
+            if let crate::world::Ev::InnerReady { res: 2, .. } = &r.ev {
+                let Some(i) = (r.task as i64).checked_sub(off as i64).filter(|i| *i >= 0 && (*i as usize) < n).map(|i| i as usize) else { continue };
+                let t = &main.rep.tasks[i + off];
+                let surfaced = matches!((&t.status, &t.out), (Status::Resolved, Some(o)) if o.inner.as_ref().map(|e| e.kind) == Some(READY_ERR_KIND));
+                if !surfaced {
+                    push(
+                        "C20.ready_error_surfaces",
+                        "swallowed",
+                        format!("t={}us: the wrapped service's poll_ready failed while request {} was being handled, but the caller got {:?}; stack {}", r.t_us, i, t.out, stack_desc),
+                    );
+                }
+            }
+        }
     }
     // ---- listeners only observe
     let mut nontrivial = true;
